@@ -826,3 +826,261 @@ Proof.
   - discriminate.
   - eauto.
 Qed.
+
+(** * Saving with non-atomic writes (truncate, then write) *)
+Lemma om_find_insert_eq : forall V k (v : V) m, om_find k (om_insert k v m) = Some v.
+Proof.
+  intros V k v m. induction m as [|[k' v'] r IH]; cbn [om_insert om_find].
+  - rewrite str_eqb_refl. reflexivity.
+  - destruct (str_cmp k k') eqn:E; cbn [om_find]; try (rewrite str_eqb_refl; reflexivity).
+    destruct (str_eqb k k') eqn:B; [|exact IH].
+    apply str_eqb_eq in B. subst. rewrite str_cmp_refl in E. discriminate.
+Qed.
+Lemma str_eqb_neq : forall a b, a <> b -> str_eqb a b = false.
+Proof. intros a b H. destruct (str_eqb a b) eqn:B; [apply str_eqb_eq in B; contradiction|reflexivity]. Qed.
+Lemma om_find_insert_neq : forall V p k (v : V) m, p <> k -> om_find p (om_insert k v m) = om_find p m.
+Proof.
+  intros V p k v m H. induction m as [|[k' v'] r IH]; cbn [om_insert om_find].
+  - rewrite (str_eqb_neq _ _ H). reflexivity.
+  - destruct (str_cmp k k') eqn:E; cbn [om_find].
+    + apply str_cmp_eq in E. subst k'. rewrite (str_eqb_neq _ _ H). reflexivity.
+    + rewrite (str_eqb_neq _ _ H). reflexivity.
+    + destruct (str_eqb p k'); [reflexivity|exact IH].
+Qed.
+
+Definition wval (t0 : omap (list N)) (q : str) (s : wstat) (out : N + list N) : option (list N) :=
+  match s, out with WTrunc, inr _ => Some [] | WDone, inr b => Some b | _, _ => om_find q t0 end.
+Fixpoint expect (t0 : omap (list N)) (wss : list (stask * wstat)) (p : str) : option (list N) :=
+  match wss with
+  | [] => om_find p t0
+  | ((q, out), s) :: r => if str_eqb p q then wval t0 p s out else expect t0 r p
+  end.
+
+Lemma expect_upd_other : forall t0 ws stat i s q out p,
+  nth_error ws i = Some (q, out) -> p <> q ->
+  expect t0 (combine ws (upd i s stat)) p = expect t0 (combine ws stat) p.
+Proof.
+  intros t0 ws. induction ws as [|[q' out'] r IH]; intros stat i s q out p Hn Hne; [destruct i; discriminate|].
+  destruct stat as [|s0 sr]; [destruct i; reflexivity|]. destruct i as [|j]; cbn [upd combine expect].
+  - cbn in Hn. inversion Hn; subst. rewrite (str_eqb_neq _ _ Hne). reflexivity.
+  - cbn in Hn. rewrite (IH sr j s q out p Hn Hne). reflexivity.
+Qed.
+Lemma expect_upd_self : forall t0 ws stat i s q out,
+  nth_error ws i = Some (q, out) -> NoDup (map fst ws) -> i < length stat ->
+  expect t0 (combine ws (upd i s stat)) q = wval t0 q s out.
+Proof.
+  intros t0 ws. induction ws as [|[q' out'] r IH]; intros stat i s q out Hn ND Hlt; [destruct i; discriminate|].
+  destruct stat as [|s0 sr]; [cbn in Hlt; lia|]. destruct i as [|j]; cbn [upd combine expect].
+  - cbn in Hn. inversion Hn; subst. rewrite str_eqb_refl. reflexivity.
+  - cbn in Hn. cbn [map fst] in ND. inversion ND as [|? ? Hnin ND']; subst.
+    assert (q <> q') as Hne.
+    { intro E. subst q'. apply Hnin. apply nth_error_In in Hn. apply (in_map fst) in Hn. exact Hn. }
+    rewrite (str_eqb_neq _ _ Hne). apply IH; [exact Hn | exact ND' | cbn in Hlt; lia].
+Qed.
+Lemma upd_same : forall A (l : list A) i x, nth_error l i = Some x -> upd i x l = l.
+Proof.
+  induction l as [|y r IH]; intros [|i] x H; cbn in *; try discriminate.
+  - inversion H. reflexivity.
+  - rewrite IH by assumption. reflexivity.
+Qed.
+Lemma expect_self : forall t0 ws stat i s q out,
+  nth_error ws i = Some (q, out) -> NoDup (map fst ws) -> nth_error stat i = Some s ->
+  expect t0 (combine ws stat) q = wval t0 q s out.
+Proof.
+  intros t0 ws stat i s q out Hn ND Hs. rewrite <- (upd_same _ stat i s Hs) at 1.
+  apply expect_upd_self; auto. apply nth_error_Some. congruence.
+Qed.
+Lemma expect_not_in : forall t0 ws stat p, ~ In p (map fst ws) -> expect t0 (combine ws stat) p = om_find p t0.
+Proof.
+  intros t0 ws. induction ws as [|[q out] r IH]; intros stat p Hn; [reflexivity|].
+  destruct stat as [|s sr]; [reflexivity|]. cbn [combine expect]. cbn [map fst] in Hn.
+  rewrite str_eqb_neq by (intro E; apply Hn; left; auto). apply IH. intro H. apply Hn. right. exact H.
+Qed.
+Lemma expect_ext : forall t0 t1 wss p, om_find p t0 = om_find p t1 -> expect t0 wss p = expect t1 wss p.
+Proof.
+  intros t0 t1 wss p H. induction wss as [|[[q out] s] r IH]; cbn [expect]; [exact H|].
+  destruct (str_eqb p q); [|exact IH]. unfold wval. destruct s, out; auto.
+Qed.
+Lemma expect_all_not : forall t0 ws p, expect t0 (combine ws (repeat WNot (length ws))) p = om_find p t0.
+Proof.
+  intros t0 ws p. induction ws as [|[q out] r IH]; [reflexivity|]. cbn [length repeat combine expect].
+  destruct (str_eqb p q); [|exact IH]. unfold wval. destruct out; reflexivity.
+Qed.
+
+Record WInv (t0 : omap (list N)) (ws : list stask) (st : wstate) : Prop := {
+  wi_len : length (w_stat st) = length ws;
+  wi_tree : forall p, om_find p (w_tree st) = expect t0 (combine ws (w_stat st)) p;
+  wi_f1 : w_failed st = true -> forallb stask_ok ws = false;
+  wi_f2 : forall i w, nth_error ws i = Some w -> stask_ok w = false ->
+          nth_error (w_stat st) i = Some WDone -> w_failed st = true }.
+
+Lemma bad_task_not_all_ok : forall ws i (w : stask), nth_error ws i = Some w -> stask_ok w = false -> forallb stask_ok ws = false.
+Proof.
+  intros ws i w Hn Hb. destruct (forallb stask_ok ws) eqn:E; [|reflexivity].
+  rewrite forallb_forall in E. rewrite (E w (nth_error_In _ _ Hn)) in Hb. discriminate.
+Qed.
+
+Lemma winv_step : forall t0 ws i st, NoDup (map fst ws) -> WInv t0 ws st -> WInv t0 ws (wstep ws i st).
+Proof.
+  intros t0 ws i st ND I. unfold wstep, stask in *.
+  destruct (nth_error ws i) as [[q out]|] eqn:Hw; [|exact I].
+  destruct (nth_error (w_stat st) i) as [s|] eqn:Hs; [|exact I].
+  assert (Hlt : i < length (w_stat st)) by (apply nth_error_Some; congruence).
+  assert (Tree : forall s' tr',
+             (forall p, p <> q -> om_find p tr' = om_find p (w_tree st)) ->
+             om_find q tr' = wval t0 q s' out ->
+             forall p, om_find p tr' = expect t0 (combine ws (upd i s' (w_stat st))) p).
+  { intros s' tr' Ho Hq p. destruct (list_eq_dec N.eq_dec p q) as [->|Hne].
+    - rewrite Hq. symmetry. apply expect_upd_self; auto.
+    - rewrite (Ho p Hne), (wi_tree _ _ _ I p). symmetry. eapply expect_upd_other; eauto. }
+  assert (Cur : om_find q (w_tree st) = wval t0 q s out).
+  { rewrite (wi_tree _ _ _ I q). eapply expect_self; eauto. }
+  assert (F2 : forall s' f', (s' = WDone -> stask_ok (q, out) = false -> f' = true) ->
+             (w_failed st = true -> f' = true) ->
+             forall j w, nth_error ws j = Some w -> stask_ok w = false ->
+             nth_error (upd i s' (w_stat st)) j = Some WDone -> f' = true).
+  { intros s' f' Hself Hmono j w Hj Hb Hd. rewrite nth_error_upd in Hd. destruct (Nat.eqb_spec i j) as [<-|Hne].
+    - rewrite Hs in Hd. inversion Hd. rewrite Hw in Hj. inversion Hj; subst w. auto.
+    - apply Hmono. eapply (wi_f2 _ _ _ I); eauto. }
+  destruct s; [destruct out as [e|b]|destruct out as [e|b]|exact I]; constructor; cbn [w_stat w_tree w_failed];
+    try (rewrite upd_length; apply (wi_len _ _ _ I)).
+  - (* not started, encoding fails *) apply Tree; [reflexivity|]. rewrite Cur. reflexivity.
+  - intros _. eapply bad_task_not_all_ok; [exact Hw|reflexivity].
+  - eapply F2; auto.
+  - (* truncate *) apply Tree; [intros p Hne; apply om_find_insert_neq; exact Hne|]. rewrite om_find_insert_eq. reflexivity.
+  - apply (wi_f1 _ _ _ I).
+  - eapply F2; [|auto]. discriminate.
+  - (* unreachable: truncated but failing *) apply Tree; [reflexivity|]. rewrite Cur. reflexivity.
+  - intros _. eapply bad_task_not_all_ok; [exact Hw|reflexivity].
+  - eapply F2; auto.
+  - (* write the bytes *) apply Tree; [intros p Hne; apply om_find_insert_neq; exact Hne|]. rewrite om_find_insert_eq. reflexivity.
+  - apply (wi_f1 _ _ _ I).
+  - eapply F2; [|auto]. intros _ Hb. cbn in Hb. discriminate.
+Qed.
+Lemma winv_steps : forall t0 ws sched st, NoDup (map fst ws) -> WInv t0 ws st -> WInv t0 ws (wsteps ws sched st).
+Proof.
+  intros t0 ws sched. induction sched as [|i r IH]; intros st ND I; [exact I|].
+  cbn [wsteps fold_left]. apply IH; [exact ND|]. apply winv_step; assumption.
+Qed.
+Lemma winv_init : forall t0 ws, WInv t0 ws (mkW t0 (repeat WNot (length ws)) false).
+Proof.
+  intros t0 ws. constructor; cbn [w_stat w_tree w_failed].
+  - apply repeat_length.
+  - intro p. rewrite expect_all_not. reflexivity.
+  - discriminate.
+  - intros i w Hn Hb Hd. apply nth_error_In in Hd. apply repeat_spec in Hd. discriminate.
+Qed.
+
+(** progress *)
+Definition wmu (st : wstate) (i : nat) : nat :=
+  match nth_error (w_stat st) i with Some WNot => 2 | Some WTrunc => 1 | _ => 0 end.
+Lemma wmu_step_other : forall ws i j st, i <> j -> wmu (wstep ws i st) j = wmu st j.
+Proof.
+  intros ws i j st Hne. unfold wstep, stask in *. destruct (nth_error ws i) as [[q out]|]; [|reflexivity].
+  destruct (nth_error (w_stat st) i) as [[]|]; try reflexivity; destruct out; unfold wmu; cbn [w_stat];
+    rewrite nth_error_upd; destruct (Nat.eqb_spec i j); try contradiction; reflexivity.
+Qed.
+Lemma wmu_step_self : forall ws i st, length (w_stat st) = length ws -> wmu (wstep ws i st) i <= pred (wmu st i).
+Proof.
+  intros ws i st HL. unfold wstep, stask in *. destruct (nth_error ws i) as [[q out]|] eqn:Hw.
+  - destruct (nth_error (w_stat st) i) as [s|] eqn:Hs.
+    + destruct s; [destruct out|destruct out|]; unfold wmu; cbn [w_stat]; rewrite ?nth_error_upd, ?Nat.eqb_refl, Hs; cbn; lia.
+    + unfold wmu. rewrite Hs. lia.
+  - unfold wmu. apply nth_error_None in Hw. rewrite <- HL in Hw. apply nth_error_None in Hw. rewrite Hw. lia.
+Qed.
+Lemma wmu_step_le : forall ws i j st, wmu (wstep ws i st) j <= wmu st j.
+Proof.
+  intros ws i j st. destruct (Nat.eq_dec i j) as [->|Hne]; [|rewrite wmu_step_other by assumption; lia].
+  unfold wstep, stask in *. destruct (nth_error ws j) as [[q out]|]; [|lia].
+  destruct (nth_error (w_stat st) j) as [s|] eqn:Hs; [|lia].
+  destruct s; [destruct out|destruct out|]; unfold wmu; cbn [w_stat]; rewrite ?nth_error_upd, ?Nat.eqb_refl, Hs; cbn; lia.
+Qed.
+Lemma wmu_steps_le : forall ws sched j st, wmu (wsteps ws sched st) j <= wmu st j.
+Proof.
+  intros ws sched. induction sched as [|i r IH]; intros j st; cbn [wsteps fold_left]; [lia|].
+  pose proof (IH j (wstep ws i st)). pose proof (wmu_step_le ws i j st). unfold wsteps in *. lia.
+Qed.
+Lemma wlen_step : forall ws i st, length (w_stat (wstep ws i st)) = length (w_stat st).
+Proof.
+  intros ws i st. unfold wstep, stask in *. destruct (nth_error ws i) as [[q out]|]; [|reflexivity].
+  destruct (nth_error (w_stat st) i) as [[]|]; try reflexivity; destruct out; cbn [w_stat]; apply upd_length.
+Qed.
+Lemma wmu_le_2 : forall st i, wmu st i <= 2.
+Proof. intros. unfold wmu. destruct (nth_error (w_stat st) i) as [[]|]; lia. Qed.
+Lemma wdrain_zero : forall ws l st, length (w_stat st) = length ws ->
+  forall i, In i l -> wmu (wsteps ws (flat_map (fun i => [i; i]) l) st) i = 0.
+Proof.
+  intros ws l. induction l as [|a r IH]; intros st HL i Hin; [destruct Hin|].
+  cbn [flat_map app wsteps fold_left].
+  set (st2 := wstep ws a (wstep ws a st)).
+  assert (HL2 : length (w_stat st2) = length ws) by (unfold st2; rewrite !wlen_step; exact HL).
+  destruct (Nat.eq_dec a i) as [->|Hne].
+  - pose proof (wmu_steps_le ws (flat_map (fun i => [i; i]) r) i st2) as H1.
+    pose proof (wmu_step_self ws i st HL) as H2.
+    assert (HL1 : length (w_stat (wstep ws i st)) = length ws) by (rewrite wlen_step; exact HL).
+    pose proof (wmu_step_self ws i (wstep ws i st) HL1) as H3. fold st2 in H3.
+    pose proof (wmu_le_2 st i). unfold wsteps in *. lia.
+  - destruct Hin as [E|Hin]; [contradiction|]. apply (IH st2 HL2 i Hin).
+Qed.
+
+Lemma all_done_repeat : forall (l : list wstat),
+  (forall i, i < length l -> nth_error l i = Some WDone) -> l = repeat WDone (length l).
+Proof.
+  induction l as [|x r IH]; intro H; [reflexivity|]. cbn [length repeat].
+  pose proof (H 0 ltac:(cbn; lia)) as H0. cbn in H0. inversion H0; subst. f_equal.
+  apply IH. intros i Hi. apply (H (S i)). cbn. lia.
+Qed.
+
+Lemma write_all_expect : forall ws t, NoDup (map fst ws) -> forallb stask_ok ws = true ->
+  exists t', write_all ws t = inr t' /\
+             forall p, om_find p t' = expect t (combine ws (repeat WDone (length ws))) p.
+Proof.
+  induction ws as [|[q [e|b]] r IH]; intros t ND Hok.
+  - exists t. split; reflexivity.
+  - cbn in Hok. discriminate.
+  - cbn [forallb] in Hok. apply andb_true_iff in Hok. destruct Hok as [_ Hr].
+    cbn [map fst] in ND. inversion ND as [|? ? Hnin ND']; subst.
+    destruct (IH (om_insert q b t) ND' Hr) as [t' [Hw Hf]]. exists t'. split; [exact Hw|].
+    intro p. rewrite Hf. cbn [length repeat combine expect].
+    destruct (list_eq_dec N.eq_dec p q) as [->|Hne].
+    + rewrite str_eqb_refl. rewrite expect_not_in by exact Hnin. rewrite om_find_insert_eq. reflexivity.
+    + rewrite (str_eqb_neq _ _ Hne). apply expect_ext. apply om_find_insert_neq. exact Hne.
+Qed.
+
+Theorem par_save2_equiv : forall sched tree (ws : list stask), NoDup (map fst ws) ->
+  tree_equiv (ok_tree (par_save2 sched tree ws)) (ok_tree (seq_save tree ws)).
+Proof.
+  intros sched tree ws ND. unfold par_save2.
+  set (st := wsteps ws (sched ++ wdrain (length ws)) (mkW tree (repeat WNot (length ws)) false)).
+  assert (I : WInv tree ws st) by (apply winv_steps; [exact ND|apply winv_init]).
+  assert (Done : forall i, i < length ws -> nth_error (w_stat st) i = Some WDone).
+  { intros i Hi. unfold st. unfold wsteps. rewrite fold_left_app. fold (wsteps ws sched (mkW tree (repeat WNot (length ws)) false)).
+    set (st1 := wsteps ws sched (mkW tree (repeat WNot (length ws)) false)).
+    fold (wsteps ws (wdrain (length ws)) st1).
+    assert (I1 : WInv tree ws st1) by (apply winv_steps; [exact ND|apply winv_init]).
+    pose proof (wdrain_zero ws (seq 0 (length ws)) st1 (wi_len _ _ _ I1) i) as Z.
+    assert (Hin : In i (seq 0 (length ws))) by (apply in_seq; lia). specialize (Z Hin).
+    fold (wdrain (length ws)) in Z. unfold wmu in Z.
+    assert (I2 : WInv tree ws (wsteps ws (wdrain (length ws)) st1)) by (apply winv_steps; assumption).
+    destruct (nth_error (w_stat (wsteps ws (wdrain (length ws)) st1)) i) as [[]|] eqn:E; try discriminate; [reflexivity|].
+    apply nth_error_None in E. rewrite (wi_len _ _ _ I2) in E. exfalso.
+    apply (Nat.lt_irrefl i). eapply Nat.lt_le_trans; [exact Hi|exact E]. }
+  destruct (forallb stask_ok ws) eqn:Hok.
+  - assert (F : w_failed st = false).
+    { destruct (w_failed st) eqn:E; [|reflexivity]. pose proof (wi_f1 _ _ _ I E). congruence. }
+    rewrite F. destruct (write_all_expect ws tree ND Hok) as [t' [Hw Hf]]. unfold seq_save. rewrite Hw.
+    cbn [ok_tree tree_equiv]. intro p. rewrite Hf, (wi_tree _ _ _ I p).
+    rewrite (all_done_repeat (w_stat st)) at 1; [rewrite (wi_len _ _ _ I); reflexivity|].
+    intros i Hi. apply Done. rewrite <- (wi_len _ _ _ I). exact Hi.
+  - assert (Hs : ok_tree (seq_save tree ws) = None).
+    { unfold seq_save. rewrite write_all_spec, collectC_spec, stask_all_some, Hok. reflexivity. }
+    rewrite Hs.
+    assert (F : w_failed st = true).
+    { assert (exists i w, nth_error ws i = Some w /\ stask_ok w = false) as [i [w [Hn Hb]]].
+      { clear -Hok. induction ws as [|w r IH]; [discriminate|]. cbn [forallb] in Hok.
+        destruct (stask_ok w) eqn:E.
+        - destruct (IH Hok) as [i [w' [Hn Hb]]]. exists (S i), w'. auto.
+        - exists 0, w. auto. }
+      apply (wi_f2 _ _ _ I i w Hn Hb). apply Done. apply nth_error_Some. congruence. }
+    rewrite F. exact Logic.I.
+Qed.
